@@ -152,7 +152,7 @@ def real_traces(groups, rng, tier, modes=('keygen', 'std', 'safe'), kms=None):
                 # ... and as a functools.partial that presets a keyword which the function only collects in **kw
                 if rot and ((g['sid'] % 48) // 24) % 2 == 1 and g['iid'] in (0, 6, 9):
                     jobs.append((g, km, mode, dict(v, kind='partialz')))
-                if rot and g['iid'] in (0, 1, 2, 5, 6, 7, 8, 9):
+                if rot and g['iid'] in (0, 1, 2, 3, 4, 5, 6, 7, 8, 9, 10, 11):
                     jobs.append((g, km, mode, dict(v, kind='method')))
                     if (n + gi) % 2 == 0:
                         jobs.append((g, km, mode, dict(v, kind='method0')))
